@@ -10,12 +10,18 @@ use std::cell::RefCell;
 use std::io::Write;
 use std::rc::Rc;
 
-#[derive(Clone)]
-struct SharedVec(Rc<RefCell<Vec<u8>>>);
+/// shared sink; accepts at most `.1` bytes per `write` call (short writes, as pipes and sockets do)
+struct SharedVec(Rc<RefCell<Vec<u8>>>, usize);
+impl Clone for SharedVec {
+    fn clone(&self) -> Self {
+        SharedVec(self.0.clone(), self.1)
+    }
+}
 impl Write for SharedVec {
     fn write(&mut self, buf: &[u8]) -> std::io::Result<usize> {
-        self.0.borrow_mut().extend_from_slice(buf);
-        Ok(buf.len())
+        let n = buf.len().min(self.1);
+        self.0.borrow_mut().extend_from_slice(&buf[..n]);
+        Ok(n)
     }
     fn flush(&mut self) -> std::io::Result<()> {
         Ok(())
@@ -167,7 +173,9 @@ pub fn run(line: &str) -> Option<(String, Vec<String>)> {
         header = header.with_mipmaps();
     }
     let header_len = 4 + header.byte_len();
-    let sink = SharedVec(Rc::new(RefCell::new(Vec::new())));
+    // every third case writes through a sink with short writes
+    let max_write = if (w + 2 * h) % 3 == 0 { 1 + (w as usize * 13 + h as usize * 7) % 509 } else { usize::MAX };
+    let sink = SharedVec(Rc::new(RefCell::new(Vec::new())), max_write);
     let mut enc = match Encoder::new(sink.clone(), format, &header) {
         Ok(e) => e,
         Err(e) => return Some((format!("err {}", err_name(&e)), oracle)),
